@@ -125,6 +125,16 @@ def run(ctx):
                     ctx.violation("C04:route:filtered", "tile %s [%s] from filtered enumeration differs from full enumeration (%.2e)" % (tuple(tile.pos), csname, d), {"pos": tuple(tile.pos), "cs": csname})
         reals[csname] = real
         pd = 3
+        # ... and the filtered / sub-pyramid constructors of Pyramid (they must hand the coordinate system down too)
+        for label, pyr in (("filtered", Pyramid.new_toast_filtered(pd, lambda t_: (t_.pos.x + t_.pos.y) % 3 != 2 or t_.pos.n < 2, coordsys=cs)),
+                           ("subpyramid", Pyramid.new_toast(pd, coordsys=cs).subpyramid(Pos(2, 1, 2)))):
+            for ppos, ptile in pyr._generator():
+                if ptile is None:
+                    continue
+                ctx.count()
+                d = float(np.abs(toastlat.tile_vecs(ptile) - toastlat.tile_vecs(real[tuple(ppos)])).max())
+                if d > XTOL or tuple(ptile.pos) != tuple(ppos):
+                    ctx.violation("C04:route:pyramid-" + label, "%s Pyramid generator tile %s [%s] differs from enumeration (%.2e)" % (label, tuple(ppos), csname, d), {"pos": tuple(ppos), "cs": csname})
         for ppos, ptile in Pyramid.new_toast(pd, coordsys=cs)._generator():
             if ptile is None:
                 continue
